@@ -45,6 +45,9 @@ type Params struct {
 	Acme              bool     `json:"acme,omitempty"`
 	AcmeTrackTLSAnn   bool     `json:"acmeTrackTLSAnn,omitempty"`
 	NotLeader         bool     `json:"notLeader,omitempty"`
+	// ReloadQueue: --reload-interval is configured, reloads are requested through the reload queue and run by
+	// Services.reloadHAProxy (the harness drains the queue after every reconciliation, unless HoldReloads)
+	ReloadQueue bool `json:"reloadQueue,omitempty"`
 	// ExtraAnnPrefixes: --annotations-prefix lists two more prefixes after the main one
 	ExtraAnnPrefixes bool `json:"extraAnnPrefixes,omitempty"`
 }
@@ -173,6 +176,51 @@ type Sim struct {
 	pending  []bool
 	Steps    int
 	closed   bool
+	// reload queue mode
+	ReloadQ     *ReloadQueue
+	HoldReloads bool // a requested reload stays in the queue (the worker is rate limited or waiting for the lock)
+}
+
+// ReloadQueue stands for the work queue of reloads: its only item (nil) is pending or not.
+type ReloadQueue struct {
+	mu      sync.Mutex
+	pending bool
+	Runs    int
+}
+
+// Add ...
+func (q *ReloadQueue) Add(item interface{}) { q.mu.Lock(); q.pending = true; q.mu.Unlock() }
+
+// AddAfter ...
+func (q *ReloadQueue) AddAfter(item interface{}, d time.Duration) { q.Add(item) }
+
+// Remove ...
+func (q *ReloadQueue) Remove(item interface{}) { q.mu.Lock(); q.pending = false; q.mu.Unlock() }
+
+// Start ...
+func (q *ReloadQueue) Start(context.Context) error { return nil }
+
+// Pending ...
+func (q *ReloadQueue) Pending() bool { q.mu.Lock(); defer q.mu.Unlock(); return q.pending }
+
+func (q *ReloadQueue) take() bool {
+	q.mu.Lock()
+	defer q.mu.Unlock()
+	p := q.pending
+	q.pending = false
+	return p
+}
+
+// RunReloads runs the requests waiting in the reload queue, including the ones a failed reload adds back (a few
+// times at most), and returns how many times the queue's sync func was called.
+func (s *Sim) RunReloads() int {
+	n := 0
+	for s.ReloadQ != nil && n < 4 && s.ReloadQ.take() {
+		n++
+		s.ReloadQ.Runs++
+		_ = s.svc.VerifReloadHAProxy(s.ctx)
+	}
+	return n
 }
 
 // Trace prints every reconciliation (development aid).
@@ -275,6 +323,10 @@ func New(p Params) (*Sim, error) {
 		SortEndpointsBy: sortBy,
 		StopCh:          ctx.Done(),
 	}
+	if p.ReloadQueue && !p.Acme {
+		s.ReloadQ = &ReloadQueue{}
+		iopt.ReloadQueue = s.ReloadQ
+	}
 	if p.Acme {
 		iopt.AcmeSigner = acmeSigner{}
 		iopt.AcmeQueue = s.Acme
@@ -311,6 +363,9 @@ func New(p Params) (*Sim, error) {
 	} else {
 		svc := services.VerifNewServices(ctx, s.Client, cfg, cache, s.ConvOpt, s.Instance)
 		s.svc, s.ctx = svc, ctx
+		if s.ReloadQ != nil {
+			svc.VerifSetReloadQueue(s.ReloadQ)
+		}
 		s.Rec = reconciler.VerifNewReconciler(ctx, cfg, svc)
 		s.Watchers = s.Rec.VerifWatchers
 	}
@@ -461,6 +516,9 @@ func (s *Sim) ReconcileOne(fullsync bool) StepInfo {
 	if s.Rec != nil {
 		// the real IngressReconciler.Reconcile -> Services.ReconcileIngress
 		requeue, err := s.Rec.Reconcile(fullsync)
+		if !s.HoldReloads {
+			s.RunReloads()
+		}
 		r1, _, c1, _ := s.Hap.Counters()
 		info := StepInfo{FullReq: fullsync, Err: err, Reloads: r1 - r0, Cmds: c1 - c0, Logs: s.Log.Take(), Requeue: requeue > 0}
 		if err == nil && requeue > 0 {
